@@ -31,12 +31,14 @@ func verifH_Timeout() {
 	wf, want, zero := refTimeout(s)
 	if wf {
 		verifCover("wellformed")
-		if !zero {
-			verifAssert(ok, "C18.spec-accept")
-			verifAssert(d == want, "C18.spec-duration")
-			if want == time.Duration(math.MaxInt64) {
-				verifCover("saturated")
-			}
+		// (zero included: the grammar says "positive integer", every gRPC implementation reads "0n" as a
+		// zero timeout - grpc-go sends exactly that for a deadline that has already passed - and the handler
+		// of such a call must find its context expired, not unbounded; Appendix B was revised on this point)
+		_ = zero
+		verifAssert(ok, "C18.spec-accept")
+		verifAssert(d == want, "C18.spec-duration")
+		if want == time.Duration(math.MaxInt64) {
+			verifCover("saturated")
 		}
 	} else {
 		verifCover("malformed")
